@@ -242,11 +242,14 @@ def exp_callable(c, cx, kind):
         a = {'direction': d, 'caller_allocates': d == 'out' and p.get('caller_allocates') == '1',
              'nullable': nullable, 'optional': optional, 'transfer': p['transfer'], 'skip': p.get('skip') == '1',
              'scope_name': p.get('scope') or 'invalid',
-             'closure': p['closure'] if p.get('closure') is not None else -1,
-             'destroy': p['destroy'] if p.get('destroy') is not None else -1,
              'arg_type': exp_type(p['type'], cx, out=isout, in_out_param=isout), 'attrs': exp_attrs(p)}
         if p.get('name') is not None:
             a['name'] = p['name']
+        for key in ('closure', 'destroy'):
+            v = p[key] if p.get(key) is not None else -1
+            # ArgBlob.closure/destroy are gint8
+            if not (v > 127 and cx.known('closure-index-int8-overflow')):
+                a[key] = v
         cx.labels.add('dir:' + d)
         cx.labels.add('transfer:' + p['transfer'])
         if p.get('scope'):
@@ -363,6 +366,7 @@ def exp_members(e, cx, out, kinds):
     out[fkey] = [exp_function(m, cx, m['m'], True) for m in members
                  if m['m'] in ('method', 'constructor', 'function') and visible(m)]
     sections += bool(out[fkey])
+    wide = len(out[fkey]) > 0x3ff and cx.known('index-10bit-overflow')     # setter/getter/invoker are 10-bit fields
     if 'property' in kinds:
         props = []
         for m in members:
@@ -370,8 +374,9 @@ def exp_members(e, cx, out, kinds):
                 continue
             p = {'name': m['name'], 'readable': m.get('readable') in (None, '1'), 'writable': m.get('writable') == '1',
                  'construct': m.get('construct') == '1', 'construct_only': m.get('construct_only') == '1',
-                 'transfer': m.get('transfer') or 'none', 'type': exp_type(m['type'], cx),
-                 'setter_name': m.get('setter'), 'getter_name': m.get('getter')}
+                 'transfer': m.get('transfer') or 'none', 'type': exp_type(m['type'], cx)}
+            if not wide:
+                p.update(setter_name=m.get('setter'), getter_name=m.get('getter'))
             if not (m.get('dep') == '1' and cx.known('property-deprecated-dropped')):
                 exp_deprecated(m, cx, p)
             if holder_ok:
@@ -399,8 +404,10 @@ def exp_members(e, cx, out, kinds):
         for m in members:
             if m['m'] != 'vfunc' or not visible(m):
                 continue
-            v = {'name': m['name'], 'throws': m['callable'].get('throws') == '1', 'invoker_name': m.get('invoker'),
+            v = {'name': m['name'], 'throws': m['callable'].get('throws') == '1',
                  'signature': exp_callable(m['callable'], cx, 'vfunc'), 'attrs': exp_attrs(m)}
+            if not wide:
+                v['invoker_name'] = m.get('invoker')
             if m.get('invoker'):
                 cx.labels.add('vfunc-invoker')
             vfs.append(v)
@@ -846,6 +853,8 @@ def check_doc(ctx, b, doc, env, cdir, boundary=False):
     check_schema(doc)
     rc, err, data = compile_doc(b, doc, cdir, doc['name'] + '.typelib')
     where = doc['name']
+    if boundary and rc == -5 and re.search(r'(ERROR|WARNING|CRITICAL) \*\*', err) and 'Sanitizer' not in err and 'runtime error' not in err:
+        return None         # rejected by a deliberate fatal diagnostic (g_error / fatal warning)
     if rc < 0:
         raise Violation(crash_bucket(rc, err), '%s: g-ir-compiler died (rc %d) on a valid document: %s' % (where, rc, err.strip()[-1500:]))
     if rc != 0:
@@ -993,7 +1002,7 @@ def boundary_doc(spec):
             f['k'] = 'function'
             ents.append(f)
     elif kind == 'longname':
-        f = _fn('f' * n, 'vf_' + 'f' * n)
+        f = _fn('f' * n, 'vf_f')
         f['k'] = 'function'
         ents = [f]
     elif kind == 'longstring':
